@@ -23,6 +23,8 @@ PLANS = {
             S("c02_dial", 400, 15000),
             S("c02_stream", 400, 15000),
             S("c05_conc", 300, 10000, label="aiomon"),
+            S("c02_reuse", 500, 15000),   # one aio reused across operation kinds: nothing leaks from one use to the next
+            S("c02_many", 300, 6000),     # up to 260 deadlines in the same instant: none forgotten, none early
         ],
         "assumptions": ["internal aios are observed through link-time wrapping of nni_task_*/nni_aio_* (sim/aiomon.c); the monitor self-reports its event counts in stats"],
     },
